@@ -590,6 +590,14 @@ def lin(fn, op, depth=0):
             if rv["k"] == "bin" and rv["op"] in ("AddWithOverflow", "MulWithOverflow"):
                 return _lin_bin(fn, rv, depth)
         return None
+    if len(ds) == 1 and ds[0][1] == "t" and not (1 <= l <= fn.argc):
+        # `usize::from(x)` / `x.into()` between unsigned integer types preserves the value
+        it = ds[0][2]
+        if re.search(r"convert::(From|Into)(<[^>]*>)?::(from|into)$", it["f"].get("path", "")) and len(it["args"]) == 1 and fn.locals[l] in WIDTH:
+            src = op_place(it["args"][0])
+            if src is not None and not src[1] and fn.locals[src[0]] in WIDTH and WIDTH[fn.locals[l]] >= WIDTH[fn.locals[src[0]]]:
+                r = lin(fn, it["args"][0], depth + 1)
+                return r if r is not None else ({l: 1}, 0)
     if len(ds) != 1 or ds[0][1] == "t" or ds[0][2]["lhs"][1] or (1 <= l <= fn.argc):
         return ({l: 1}, 0)
     rv = ds[0][2]["rv"]
